@@ -13,34 +13,44 @@ pub fn text_of(j: &J) -> String {
 
 /// Parse with the public parser AND compile with Program::compile; both must agree on accept / reject.
 pub fn parse_outcome(src: &str) -> J {
-    let r = catch_unwind(AssertUnwindSafe(|| {
-        let a = cel_parser::Parser::new().parse(src);
-        let p = cel_interpreter::Program::compile(src);
-        (a, p)
-    }));
-    match r {
-        Err(_) => json!({"k": "panic", "msg": run::last_panic()}),
-        Ok((Ok(ast), Ok(_))) => {
-            let mut ids = vec![];
-            enc::ast_ids(&ast, &mut ids);
-            json!({"k": "ok", "ast": enc::ast(&ast), "ids": ids})
-        }
-        Ok((Err(e), Err(_))) => {
-            let errs: Vec<J> = e.errors.iter().map(|pe| {
-                let text = format!("{}", pe);
-                if text.chars().count() <= 1200 {
-                    json!({"line": pe.pos.0, "col": pe.pos.1, "msglen": pe.msg.chars().count(), "textlen": text.chars().count(), "msgcp": enc::cps(&pe.msg), "textcp": enc::cps(&text)})
-                } else {
-                    json!({"line": pe.pos.0, "col": pe.pos.1, "msglen": pe.msg.chars().count(), "textlen": text.chars().count()})
+    let owned = src.to_string();
+    // parsing, compiling AND rendering the errors, under a panic guard and a watchdog
+    let r = run::watchdog(move || {
+        catch_unwind(AssertUnwindSafe(|| {
+            let a = cel_parser::Parser::new().parse(&owned);
+            let p = cel_interpreter::Program::compile(&owned);
+            match (a, p) {
+                (Ok(ast), Ok(_)) => {
+                    let mut ids = vec![];
+                    enc::ast_ids(&ast, &mut ids);
+                    json!({"k": "ok", "ast": enc::ast(&ast), "ids": ids})
                 }
-            }).collect();
-            json!({"k": "err", "errors": errs, "displaylen": format!("{}", e).chars().count()})
-        }
-        Ok(_) => json!({"k": "disagree"}),
+                (Err(e), Err(_)) => {
+                    let errs: Vec<J> = e.errors.iter().map(|pe| {
+                        let text = format!("{}", pe);
+                        if text.chars().count() <= 1200 {
+                            json!({"line": pe.pos.0, "col": pe.pos.1, "msglen": pe.msg.chars().count(), "textlen": text.chars().count(), "msgcp": enc::cps(&pe.msg), "textcp": enc::cps(&text)})
+                        } else {
+                            json!({"line": pe.pos.0, "col": pe.pos.1, "msglen": pe.msg.chars().count(), "textlen": text.chars().count()})
+                        }
+                    }).collect();
+                    json!({"k": "err", "errors": errs, "displaylen": format!("{}", e).chars().count()})
+                }
+                _ => json!({"k": "disagree"}),
+            }
+        }))
+    });
+    match r {
+        None => json!({"k": "timeout", "secs": run::WATCHDOG_SECS}),
+        Some(Err(_)) => json!({"k": "panic", "msg": run::last_panic()}),
+        Some(Ok(j)) => j,
     }
 }
 
 fn rec(out: &mut dyn Write, id: usize, kind: &str, src: &str, extra: J) {
+    if run::too_many_timeouts() {
+        return;
+    }
     let mut o = parse_outcome(src);
     if extra.get("noast").is_some() {
         if let Some(m) = o.as_object_mut() {
